@@ -302,7 +302,11 @@ func (f *FnVC) specObject(env *SEnv, o types.Object, want types.Type) (Val, erro
 	case *types.Var:
 		if g := f.E.globalOf(x); g != nil {
 			gv := f.globalVal(g)
-			return f.loadAt(env.cur, gv, x.Type()), nil
+			out := f.loadAt(env.cur, gv, x.Type())
+			if f.E.errSentinel(g) && out.T.Sort == SIface {
+				f.SC.Assert(not(eq(out.T, Term{"nil_iface", SIface})).S)
+			}
+			return out, nil
 		}
 	}
 	return Val{}, fmt.Errorf("cannot use %s in a specification", o.Name())
@@ -782,6 +786,29 @@ func (f *FnVC) specCall(env *SEnv, e *spec.Expr, want types.Type) (Val, error) {
 			ch := env.child()
 			ch.cur = s.postSt
 			return f.evalSpec(ch, args[1], want)
+		case "athead":
+			// athead(K, e): e evaluated at the head of loop K for the iteration in progress (an inner loop's invariant uses it to
+			// relate its state to where the enclosing iteration started)
+			k, err := strconv.Atoi(args[0].Tok)
+			if err != nil {
+				return Val{}, fmt.Errorf("athead(K, e): K must be a loop ordinal")
+			}
+			for _, li := range f.loops {
+				if li.ordinal != k {
+					continue
+				}
+				hs, hn := f.loopHdrState[li], f.loopHdrNames[li]
+				if hs == nil || hn == nil {
+					break
+				}
+				ch := env.child()
+				ch.cur = hs
+				for n, v := range hn {
+					ch.names[n] = v
+				}
+				return f.evalSpec(ch, args[1], want)
+			}
+			return Val{}, fmt.Errorf("athead(%d, ...): loop head not executed before this point (not an enclosing cut loop)", k)
 		case "ite":
 			c, err := f.evalSpec(env, args[0], boolT)
 			if err != nil {
